@@ -191,7 +191,8 @@ def guards(ctx, F, r="R-11.3"):
         ctx.missing(r, "inner Generator::update", cfg=F.key)
         return
     b = bs[0]
-    paths = sym.Sym(b).paths()
+    S = sym.Sym(b)
+    paths = S.paths()
     LEN = ("field", ("deref", P(1)), gf["len"])
     MAXLEN = None
     # identify constants by name of the associated constant
@@ -202,6 +203,7 @@ def guards(ctx, F, r="R-11.3"):
     for p in paths:
         stores_len = [(bb, v) for (bb, pl, v) in p.stores if n(pl) == LEN]
         conds = [(bb, n(d), (taken == "otherwise") if vals == [0] else taken) for (bb, d, taken, vals) in p.conds]
+        raw_conds = {bb: d for (bb, d, taken, vals) in p.conds}
         g_idx = [i for i, (bb, e, t) in enumerate(conds) if e[0] == "bin" and e[1] == "Le" and is_maxlen(e[2]) and e[3] == ("load", LEN)]
         if stores_len and not g_idx:
             bad.append("counter written on a path without the len >= MAX_LEN test")
@@ -233,6 +235,18 @@ def guards(ctx, F, r="R-11.3"):
             amount = te[3]
             room = te[2]
             m = match(conv, amount)
+            if m is None:
+                # the same conversion spelled as a `match`: on the Ok arm the amount is the converted length itself, on the Err arm
+                # (length >= 2^32) it is u32::MAX
+                TFC = ("call", V("tf"), (("call", "core::slice::<impl [T]>::len", (V("data"),)),))
+                mo = match(("field", ("variant", TFC, "Ok"), 0), amount)
+                if mo is not None and mo["tf"].endswith("try_from"):
+                    m = mo
+                elif amount == C(0xFFFFFFFF):
+                    for (bb_, e_, t_) in conds:
+                        md = match(("discr", TFC), e_)
+                        if md is not None and md["tf"].endswith("try_from") and S.variant(raw_conds[bb_], t_) == "Err":
+                            m = md
             if m is None or not m["tf"].endswith("try_from"):
                 bad.append("amount compared is %s; reference u32::try_from(data.len()).unwrap_or(u32::MAX)" % sym.fmt(amount))
                 continue
